@@ -7,7 +7,8 @@
 //	      (upper bound on every window, owed admissions after idleness, Resize semantics);
 //	(ii)  schedules: callers that are overtaken between reading the clock and updating the bucket
 //	      (the C06-stale-clock-overadmit regression), replayed deterministically;
-//	(iii) wall clock: NewFlowControl / Sync with 1-64 concurrent callers, one-sided judges.
+//	(iii) wall clock: NewFlowControl / Sync with 1-64 concurrent callers, one-sided judges;
+//	(iv)  end to end (e2e.go): the real handler chain and dispatcher: what is refused is answered 429.
 package main
 
 import (
@@ -56,7 +57,7 @@ type Step struct {
 }
 
 type Case struct {
-	Kind  string `json:"kind"` // script | sched | real
+	Kind  string `json:"kind"` // script | sched | real | e2e
 	Path  string `json:"path,omitempty"`
 	QPS   int    `json:"qps"`
 	Burst int    `json:"burst"`
@@ -677,8 +678,12 @@ func checkSched(c *rig.Ctx, cs Case) *failure {
 		return &failure{"diff", "c06.model-error", "window: " + err.Error(), nil, nil}
 	}
 	if !w.Ok {
-		return &failure{"judge", "c06.upper.concurrent", fmt.Sprintf("qps=%d burst=%d: %d requests admitted between clock readings %s and %s ns, ceil(burst+qps*T) = %d (callers overtaken between reading the clock and updating the bucket)",
-			cs.QPS, cs.Burst, out.Admitted, out.First, out.Last, w.Bound), out.Obs, nil}
+		how := "a caller was overtaken between reading the clock and updating the bucket: TryAcquire is not serialised"
+		if out.Serialised {
+			how = "callers are serialised, the bucket itself over-admits"
+		}
+		return &failure{"judge", "c06.upper.concurrent", fmt.Sprintf("qps=%d burst=%d: %d requests admitted between clock readings %s and %s ns, ceil(burst+qps*T) = %d (%s)",
+			cs.QPS, cs.Burst, out.Admitted, out.First, out.Last, w.Bound, how), out.Obs, nil}
 	}
 	return nil
 }
@@ -900,6 +905,8 @@ func runCase(c *rig.Ctx, cs Case, record bool) bool {
 		f = checkSched(c, cs)
 	case "real":
 		_, f = runReal(c, cs)
+	case "e2e":
+		_, f = runE2E(c, cs)
 	default:
 		fmt.Fprintln(os.Stderr, "unknown case kind", cs.Kind)
 		os.Exit(2)
@@ -946,7 +953,8 @@ func main() {
 			"on the real bucket with a scripted clock - acquires at gaps of 0, 1 ns, one token interval -1/0/+1 ns, k intervals, hours, >292 years, backwards (raw stream), " +
 			"first call at the zero time / at the Sub saturation edge, and reconfigurations (unchanged, changed, swapped; presented plainly, with another schema added/removed, with the strategy toggled) " +
 			"through Resize or through UpstreamLimiter.Sync; distinct = distinct canonical script; non-trivial = both admitted and refused calls, or an effective reconfiguration. " +
-			"sched: callers overtaken between clock read and bucket update. real: wall-clock patterns (spin with 1-64 callers, idle-then-burst, unchanged re-sync under load).")
+			"sched: callers overtaken between clock read and bucket update. real: wall-clock patterns (spin with 1-64 callers, idle-then-burst, unchanged re-sync under load). " +
+			"e2e: the real handler chain + dispatcher in front of a scripted upstream, sequential prefix then 1-24 concurrent clients: 200 = forwarded, everything else must be 429.")
 		if c.Replay != "" {
 			var cs Case
 			if err := c.LoadReplay(&cs); err != nil {
@@ -965,11 +973,11 @@ func main() {
 		}
 		// wall-clock patterns run beside the scripts (their judges are one-sided)
 		var wg sync.WaitGroup
-		pats := realPatterns(c)
+		pats := append(realPatterns(c), e2eCases(c)...)
 		sem := make(chan struct{}, 3)
 		for i, cs := range pats {
 			cs := cs
-			c.Case(rig.Canon(cs)+fmt.Sprint(i), true, "real:"+cs.Pattern+":"+cs.Path+fmt.Sprintf(":conc%d", cs.Conc), func() interface{} { return cs })
+			c.Case(rig.Canon(cs)+fmt.Sprint(i), true, cs.Kind+":"+cs.Pattern+":"+cs.Path+fmt.Sprintf(":conc%d", cs.Conc), func() interface{} { return cs })
 			c.Trace()
 		}
 		wg.Add(1)
